@@ -90,7 +90,8 @@ def limitOf (lim : Limits) (ctor : String) : Int :=
   | "copy_array" | "sort_array" | "map_array" | "filter_array" | "unique_array" | "array_sub" | "array_and"
   | "keys" | "values" => lim.maxArray
   | "allocate_buffer" | "add_buffer" => lim.maxBuffer
-  | "map_insert" | "map_aggregate" | "map_add" | "copy_mapping" | "allocate_mapping" => lim.maxMapping
+  | "map_insert" | "map_aggregate" | "map_add" | "copy_mapping" | "allocate_mapping" | "filter_mapping" | "map_mapping"
+    => lim.maxMapping
   | _ => lim.maxString
 
 /-- result of a mapping operation sequence, `"<flags>:<sizeof>/<nodes>"`: what sizeof () reports is what the mapping
